@@ -45,6 +45,8 @@ TRACING = {0: "off", 1: "on, collector unreachable (OTEL_EXPORTER_OTLP_ENDPOINT 
 
 
 def status_text(code):
+    if code == -1000:
+        return "still running 8 s after the end of the graceful period (then killed by the harness)"
     if code < 0 and code != -1000:
         return "killed by signal %d%s" % (-code, " (%s)" % TERMINATION[-code] if -code in TERMINATION else "")
     return "exit status %d" % code
@@ -233,7 +235,7 @@ def monitor(ctx, rows, notes):
             if r["code"] != 0:
                 # (status 1 = the log.Fatalf of the deadline watcher; a process that was killed by a signal, or failed in another
                 # way, is a different failure and gets its own key)
-                ctx.violation("drained-but-exit-status-failure" if r["code"] == 1 else
+                ctx.violation("drained-but-exit-status-failure" if r["code"] == 1 else "drained-but-still-running" if r["code"] == -1000 else
                               "drained-but-killed-by-signal" if r["code"] < 0 else "drained-but-exit-status-other",
                               "every accepted request completed (the last at %.2f s, graceful period %.2f s) but the process did not exit successfully: %s at %.2f s%s"
                               % (last / SEC, G / SEC, status_text(r["code"]), r["exit"] / SEC, more), case)
@@ -242,7 +244,8 @@ def monitor(ctx, rows, notes):
             # So: no later than two poll intervals after the last completion AS OBSERVED by the client.
             seen = [e for e, acc, comp in zip(r["ends"], r["acc"], r["comp"]) if acc and comp]
             last_seen = max([last] + seen)
-            if r["exit"] > last_seen + PROMPT_TOL:
+            # (a process that never exited by itself has no exit instant: reported above, once)
+            if r["exit"] > last_seen + PROMPT_TOL and r["code"] != -1000:
                 ctx.violation("exit-not-prompt", "everything completed at %.2f s (observed: %.2f s) but the process exited at %.2f s" % (last / SEC, last_seen / SEC, r["exit"] / SEC), case)
             if r["exit"] < last - MARGIN:
                 ctx.violation("exit-before-drained", "the process exited before the last accepted request completed", case)
